@@ -108,6 +108,17 @@ CHECKS = {
             "(same case with layers off) and residual nudges (existing node, label in a used hit, caps).",
             "Trusted: harness/models/t2.py; float32-vs-float64 band 1e-6; in-memory backend only (lancedb is not installed).",
             "DESIGN.md §3 C11"),
+    "C13": ("exploration",
+            "Hypothesis property tests of planner/speaker/sanitiser against reference rules, full-turn call counting, grammar-based mutation of plan texts and an atheris byte target with the oracle inside",
+            "Planner: bundles with s_max on a grid around both thresholds (equality, +-1 ulp), caps 0-16, slice caps, checked for purity, "
+            "len(ops) <= min(cap, slice cap), Speak-first with the documented intent, RequestRetrieve only below tau_low, monotone intent; "
+            "config->bundle->plan->utterance chain so configured caps/thresholds/budgets are the ones that bind; speaker: templates with "
+            "every/unknown placeholders and stray braces, budgets 1-256, LLM stub/raising adapters: token count <= budget also after the "
+            "utterance filter; full turns: <= 1 retrieval refinement; sanitiser: valid PLANNER_V1 objects mutated (fences, prose, size, "
+            "nesting, types, NaN, surrogates) + atheris: never raises, accepted => single JSON object within limits validating against "
+            "the repo's schema.",
+            "Trusted: reference rules transcribed from docs/tests inside checks/c13.py; jsonschema for PLANNER_V1.",
+            "DESIGN.md §3 C13"),
     "C15": ("exploration",
             "exhaustive breadth-first closure over reachable (model, implementation) states for every container + Hypothesis rule-based machines + multi-threaded rounds with schedule-independent oracles + merge determinism properties",
             "Nine containers (LRUBytes, _NamespaceCache/LRUCache/CacheManager with injected clock, DeterministicLRU/Set, ring LRU, "
